@@ -340,7 +340,20 @@ def _tsp_checker_first_node(orig):
     return mutant
 
 
+def _tsp_checker_batch_counts(orig):
+    """counts visits over the whole batch instead of per tour: mirrored faults of two tours cancel"""
+
+    def mutant(td, actions):
+        n = td["locs"].shape[-2]
+        assert actions.shape[-1] == n, "Invalid tour"
+        visits = torch.bincount(actions.reshape(-1), minlength=n)
+        assert (visits == actions.size(0)).all(), "Invalid tour"
+
+    return mutant
+
+
 C06_CANARIES = {
+    "tsp_counts_over_batch": _swap(E["TSPEnv"], "check_solution_validity", _tsp_checker_batch_counts, static=True),
     "cvrp_capacity_unchecked": _swap(E["CVRPEnv"], "check_solution_validity", _swallow("capacity"), static=True),
     "cvrp_rejects_full_vehicle": _swap(E["CVRPEnv"], "check_solution_validity", _cvrp_checker_tight, static=True),
     "tsp_rejects_rotations": _swap(E["TSPEnv"], "check_solution_validity", _tsp_checker_first_node, static=True),
